@@ -208,6 +208,9 @@ func (g *UndirectedMatrix) setWeightedEdge(e graph.Edge, weight float64) {
 	if int64(int(tid)) != tid {
 		panic("simple: unavailable to node ID for dense graph")
 	}
+	if !g.has(fid) || !g.has(tid) {
+		panic("simple: node ID out of range for dense graph")
+	}
 	if g.nodes != nil {
 		g.nodes[fid] = from
 		g.nodes[tid] = to
